@@ -65,8 +65,11 @@ _A_GEN = ("rapid state-machine style generation against one fresh leader instanc
 _B_GEN = (" Engine B (controlled schedules): a sequential prefix of 1..8 requests on two hot keys, then 2..5 logical threads (each on its own connection: 1..3 "
           "LOCK/UNLOCK requests incl. unlock-first / cancel-wait / update / priority, or a sweeper thread that advances the clock 1..3 s and runs the timeout and expiry sweeps) "
           "run as goroutines that park at the shard-mutex hook points (about to lock / just unlocked); exactly one runs at a time and the rapid-drawn schedule picks which parked "
-          "thread continues, so the interleaving is part of the case and replays. After every segment the in-package snapshot is compared with the previous one: a new holder "
-          "only if the admission rule held before (C01), granted waiter was the head of the queue (C04), locked == sum of depths and STATE counters == census (C17); every reply "
+          "thread continues, so the interleaving is part of the case and replays. One case in ten is the key-manager recycling scenario (a request for key 0 is held "
+          "back in front of the shard mutex - a 'stall' directive of the schedule - while key 0's last hold ends, a sweep recycles its key manager and a run of 8..12 fresh keys "
+          "is locked under the stalled request's LockId until the recycled manager is handed out again). After every segment the in-package snapshot is compared with the previous one: a new holder "
+          "only if the admission rule held before (C01), every holder that left a key without expiring is matched (maximum matching) by an unlock request of the concurrent "
+          "phase for that key bearing its LockId or the unlock-first flag (C01: a hold is outstanding until its unlock is accepted, it expires or is rolled back), granted waiter was the head of the queue (C04), locked == sum of depths and STATE counters == census (C17); every reply "
           "is checked against the request table (C03); at the end of the schedule no admissible head waiter (C04), then a drain: all counts zero, nothing reachable, every request "
           "answered exactly once (C17, C03). Non-trivial (engine B): >=2 thread switches and a holder added or removed during the concurrent phase.")
 
